@@ -131,11 +131,15 @@ def retainLoop (now thr : Nat) (afp : Option Nat) :
               (retainActive afp c (refreshed fm c) keep act)
     (if keep then refreshed fm c :: r.1 else r.1, r.2.1, r.2.2)
 
-/-- `Vec::swap(0, idx)` -/
+/-- `Vec::swap(0, idx)` (`idx` comes from `position`, so it is in range) -/
 def swapFront (l : List Path) (idx : Nat) : List Path :=
-  match l[0]?, l[idx]? with
-  | some a, some b => (l.set 0 b).set idx a
-  | _, _ => l
+  match l, idx with
+  | [], _ => []
+  | a :: t, 0 => a :: t
+  | a :: t, i + 1 =>
+    match t[i]? with
+    | some b => b :: (t.take i ++ a :: t.drop (i + 1))
+    | none => a :: t
 
 /-- the `while kept_existing + kept_new < target` loop: prefixes kept of both ranked lists -/
 def mergeTake (sc : Nat → Int) : Nat → List Path → List Path → List Path × List Path
@@ -190,26 +194,30 @@ def activeEntry (s : St) : Option Path :=
   | some a => s.cached.find? (·.fp == a.fp)
   | none => none
 
-/-- `decide_active_path_update`; the Boolean reports the `debug_assert!(false, "failed to find
-    active path entry …")` -/
+/-- "Determine if active path needs replacement - just by active path" -/
+def baseDecision (active : Option Path) (now thr : Nat) : Decision :=
+  match active with
+  | none => .replace
+  | some a =>
+    if checkExpiry a now thr = .valid then .noChange
+    else if checkExpiry a now thr = .near then .replace
+    else .forceReplace
+
+/-- "If no reason to change, and we have a best path, check if there is a reason to switch"; the
+    Boolean reports the `debug_assert!(false, "failed to find active path entry …")` -/
+def swapCheck (env : Env) (s : St) (sc : Nat → Int) (best : Option Path) : Decision × Bool :=
+  match best, activeEntry s with
+  | some b, some ae =>
+    (if env.cfg.swapThreshold < sc b.fp - sc ae.fp then .replace else .noChange, false)
+  | some _, none => (.noChange, true)
+  | none, _ => (.noChange, false)
+
+/-- `decide_active_path_update` -/
 def decideActive (env : Env) (s : St) (now : Nat) (sc : Nat → Int) : Decision × Option Path × Bool :=
   let best := bestPath s.cached now env.cfg.minExpiryThreshold
-  let d0 : Decision :=
-    match s.active with
-    | none => .replace
-    | some a =>
-      match checkExpiry a now env.cfg.minExpiryThreshold with
-      | .valid => .noChange
-      | .near => .replace
-      | .expired => .forceReplace
-  match d0, best with
-  | .noChange, some b =>
-    match activeEntry s with
-    | some ae =>
-      if env.cfg.swapThreshold < sc b.fp - sc ae.fp then (.replace, best, false)
-      else (.noChange, best, false)
-    | none => (.noChange, best, true)
-  | d, _ => (d, best, false)
+  let d0 := baseDecision s.active now env.cfg.minExpiryThreshold
+  if d0 = .noChange then ((swapCheck env s sc best).1, best, (swapCheck env s sc best).2)
+  else (d0, best, false)
 
 /-- `apply_active_path_decision` -/
 def applyDecision (s : St) (d : Decision) (best : Option Path) : St :=
@@ -256,23 +264,31 @@ def Resp.paths : Resp → List Path
   | .ok ps => ps
   | _ => []
 
+/-- bookkeeping of the `Ok` arm of `fetch_and_update` -/
+def afterOk (cfg : Cfg) (u : St) (now ee : Nat) : St :=
+  { u with err := none, failed := 0, nextRefetch := nextAfterOk cfg now ee }
+
+/-- bookkeeping of the `Err` arm of `fetch_and_update` (`failed` = attempts before this one) -/
+def afterErr (cfg : Cfg) (u : St) (failed now backoff : Nat) (e : FetchErr) : St :=
+  { u with failed := failed + 1, nextRefetch := now + failDelay backoff cfg.minRefetchDelay, err := some e }
+
+/-- "Set update state": `initialized = true`, waiters notified -/
+def markInit (s : St) : St := { s with initialized := true }
+
+/-- the ghost record of what the fetcher returned -/
+def noteDelivered (s : St) (resp : Resp) : St := { s with delivered := s.delivered ++ resp.paths }
+
 def fetchAndUpdate (env : Env) (s : St) (now : Nat) (resp : Resp) (sc0 sc1 : Nat → Int)
     (ord : List Nat) (backoff : Nat) : St :=
-  let s := { s with delivered := s.delivered ++ resp.paths }
   match fetchFiltered env now resp with
   | .ok f =>
-    let u := updateCache env s f now sc1 ord
+    let u := updateCache env (noteDelivered s resp) f now sc1 ord
     match earliestExpiry u.1.cached with
     | none => { u.1 with bad := true }   -- `.expect("should have a path available …")`
-    | some ee =>
-      let s2 := { u.1 with err := none, failed := 0, nextRefetch := nextAfterOk env.cfg now ee }
-      { reevaluate env s2 now (if u.2 then sc1 else sc0) with initialized := true }
+    | some ee => markInit (reevaluate env (afterOk env.cfg u.1 now ee) now (if u.2 then sc1 else sc0))
   | .error e =>
-    let u := updateCache env s [] now sc1 ord
-    let s2 := { u.1 with failed := s.failed + 1,
-                         nextRefetch := now + failDelay backoff env.cfg.minRefetchDelay,
-                         err := some e }
-    { reevaluate env s2 now sc0 with initialized := true }
+    let u := updateCache env (noteDelivered s resp) [] now sc1 ord
+    markInit (reevaluate env (afterErr env.cfg u.1 s.failed now backoff e) now sc0)
 
 /-- `idle_check` (called only when `now ≥ next_idle_check`): new state and "is idle" -/
 def idleCheck (env : Env) (s : St) (now : Nat) : St × Bool :=
